@@ -9,7 +9,8 @@ EXPLANATION = (
     "(R-C07-accounting) on every Ok path of every handler that touches the packet-id tables, (slots stored + releases recorded) − (slots freed + releases cleared) equals (inflight increments − decrements) — "
     "paths are enumerated exhaustively per handler (loop-free), closures passed to Option::map are inlined as optional segments; "
     "(R-C07-collision-resolve) every Ok path that frees a packet id for good calls check_collision for that id, and `collision = Some(..)` is assigned only in outgoing_publish on the edge where the slot is occupied; "
-    "(R-C07-gate) the event loop's request branch precondition reads `state.inflight >= limit`, `state.collision.is_some()` and `pending.is_empty()`; "
+    "(R-C07-gate) the event loop's request branch precondition reads `state.inflight >= limit`, `state.collision.is_some()` and `pending.is_empty()`, and `limit` is the state field next_pkid wraps at "
+    "(or, when that field is written only by MqttState::new, the options field the constructor argument is read from); "
     "(R-C07-pkid) the packet id of outgoing publish/subscribe/unsubscribe comes from next_pkid() (or is a caller-assigned non-zero id), next_pkid is the only writer of last_pkid besides new, "
     "and its wrap-around test by equality is used only against a limit that is never rewritten — otherwise a `last_pkid >= limit` test must guard it. "
     "NOT decided: 1 <= id <= limit and uniqueness as value invariants over all ack orders.")
@@ -202,6 +203,55 @@ def accounting(ctx, prog, ver):
                         ctx.violation(rule2, body.id, "collision assigned", "the collision slot is filled outside outgoing_publish", site=body.loc(st.get("sp")))
 
 
+def pkid_limit_fields(prog, ver):
+    """fields of the state that next_pkid compares the id counter against (the limit bounding packet ids)"""
+    np = state_fn(prog, ver, "next_pkid")
+    out = set()
+    for b in np.blocks:
+        for st in b["s"]:
+            if "lhs" in st and st["rv"]["k"] == "bin" and st["rv"]["op"] in ("Eq", "Ge", "Gt", "Lt", "Le"):
+                for side in ("a", "b"):
+                    for s in flatten_src(provenance(np, st["rv"][side])):
+                        if s.kind in ("param", "field") and s.fields and s.fields[-1] != "last_pkid" and s.l == 1:
+                            out.add(s.fields[-1])
+    return out
+
+
+def limit_agreement(ctx, prog, ver, body, rhs):
+    """The window test of the event loop must use the limit that bounds packet ids in the state machine:
+    either the very field next_pkid wraps at, or — when that field is written only by the constructor —
+    the options field the constructor argument is read from.  A gate with a larger limit admits requests
+    whose id is still held (collision) or exceeds the negotiated window."""
+    rule = "R-C07-gate"
+    pre_s = dict((v[0], v[1]) for v in VERSIONS)[ver]
+    pre_e = dict((v[0], v[2]) for v in VERSIONS)[ver]
+    limits = pkid_limit_fields(prog, ver)
+    if not limits:
+        ctx.anchor_missing(rule, "next_pkid limit field (%s)" % ver)
+        return
+    src = flatten_src(provenance(body, rhs))
+    gate_fields = [s.fields for s in src if getattr(s, "fields", None)]
+    if src and len(gate_fields) == len(src) and all("state" in f and f[-1] in limits for f in gate_fields):
+        ctx.ok(rule, body.id, "window test compares against state.%s, the limit next_pkid wraps at" % "/".join(sorted(limits)))
+        return
+    # limit held in the options: sound only if the state's limit is a constructor-time copy of the same options field
+    mutable = sorted(set(b.id for lim in limits for b, bi, st in field_writes(prog, lim) if b.id.startswith(pre_s) and b.name != "new"))
+    ctor_fields = set()
+    nb = prog.one("^" + re.escape(pre_e) + r"new$")
+    for bb, t in nb.calls():
+        if callee_path(t).endswith("MqttState::new") and t["args"]:
+            for s in flatten_src(provenance(nb, t["args"][0])):
+                if getattr(s, "fields", None):
+                    ctor_fields.add(s.fields[-1])
+    if src and not mutable and gate_fields and len(gate_fields) == len(src) and all(f[-1] in ctor_fields for f in gate_fields):
+        ctx.ok(rule, body.id, "window test compares against options.%s, the value MqttState::new copies into %s (never rewritten)" % ("/".join(sorted(ctor_fields)), "/".join(sorted(limits))))
+        return
+    ctx.violation(rule, body.id, "window limit differs from the packet-id limit",
+                  "select() tests `state.inflight >= X` with X from %s, but packet ids are bounded by state.%s%s: with a smaller negotiated window the loop keeps taking requests although the window is full"
+                  % ([".".join(f) for f in gate_fields] or [s.kind + ":" + str(getattr(s, "path", "")) for s in src], "/".join(sorted(limits)),
+                     (" (rewritten by %s)" % mutable) if mutable else ""), site=body.fn_loc())
+
+
 def gate(ctx, prog, ver):
     rule = "R-C07-gate"
     pre = dict((v[0], v[2]) for v in VERSIONS)[ver]
@@ -213,12 +263,14 @@ def gate(ctx, prog, ver):
             if "lhs" in st and st["rv"]["k"] == "bin" and st["rv"]["op"] in ("Ge", "Gt", "Eq", "Lt", "Le"):
                 sa = flatten_src(provenance(body, st["rv"]["a"]))
                 if any(getattr(s, "fields", None) and s.fields[-1].split(".")[-1] == "inflight" and "state" in ".".join(s.fields) for s in sa):
-                    full = (st["lhs"]["l"], st["rv"]["op"], bi)
+                    full = (st["lhs"]["l"], st["rv"]["op"], bi, st["rv"]["b"])
     for bb, t in body.calls():
         if callee_path(t).endswith("Option::<T>::is_some"):
             fs = [x.split(".")[-1] for x in (receiver_fields(body, t) or [])]
             if fs and fs[-1] == "collision":
                 coll = (t["dest"]["l"], bb)
+    if full:
+        limit_agreement(ctx, prog, ver, body, full[3])
     if not full:
         ctx.violation(rule, body.id, "no window test", "select() no longer computes `state.inflight >= <limit>`", site=body.fn_loc())
     elif full[1] != "Ge":
